@@ -80,6 +80,7 @@ func c11RabinScenarioV(c *kc.Ctx, mock bool, n, t int, faults map[int]string, vi
 		return true
 	}
 	// 1. deals
+	dealRefused := map[int]bool{}
 	var resps []*rdkg.Response
 	for _, d := range nodes {
 		if d.fault == "absent" {
@@ -133,6 +134,9 @@ func c11RabinScenarioV(c *kc.Ctx, mock bool, n, t int, faults map[int]string, vi
 			if !run(func() { r, err = nodes[j].gen.ProcessDeal(dd) }) {
 				viol("processdeal-panic", fmt.Sprintf("ProcessDeal at %d of deal from %d panicked", j, d.i))
 				return
+			}
+			if err != nil {
+				dealRefused[j] = true // a malformed deal: the node could not even register it (no complaint is possible)
 			}
 			if err == nil && r != nil && nodes[j].fault == "forgedJustification" && nodes[j].victim == d.i && r.Response != nil {
 				// a false complaint, correctly signed by the faulty verifier
@@ -248,6 +252,39 @@ func c11RabinScenarioV(c *kc.Ctx, mock bool, n, t int, faults map[int]string, vi
 	for _, x := range nodes {
 		if x.fault != "absent" && (needTimeout || rng.Intn(2) == 0) {
 			run(func() { x.gen.SetTimeout() })
+		}
+	}
+	// QUAL() is an output of its own: once deals, responses, justifications (and timeouts) are in, the honest
+	// nodes hold the same qualified set, whatever they asked their generator in between
+	{
+		var refQ []uint32
+		refI := -1
+		for _, x := range nodes {
+			if !honest(x) || dealRefused[x.i] {
+				continue // a node that had to refuse a malformed deal does not hold the same view (and cannot complete)
+			}
+			var q []uint32
+			run(func() { q = x.gen.QUAL() })
+			sort.Slice(q, func(a, b int) bool { return q[a] < q[b] })
+			if refI < 0 {
+				refQ, refI = q, x.i
+				continue
+			}
+			if fmt.Sprint(q) != fmt.Sprint(refQ) {
+				// Only where every honest node accepted the same messages: a deal under another threshold carries
+				// another session id (the victim and the others reject each other's responses), forged and
+				// conflicting messages are classified on the final outputs below.
+				special := false
+				for _, f := range faults {
+					if f == "equivocate" || f == "forgedJustification" || f == "thresholdOne" || f == "badShareMany" {
+						special = true
+					}
+				}
+				if !special {
+					viol("qual-agreement", fmt.Sprintf("after the dealing phases honest nodes %d and %d hold different QUAL sets (%v vs %v)", refI, x.i, refQ, q))
+					return
+				}
+			}
 		}
 	}
 	// 4. secret commits among QUAL
